@@ -337,6 +337,8 @@ def convert_value(eng, v, src, tgt, sp):
         nm = eng.impl_index.get((tb, 'From<%s>' % _norm_ty(src), 'from'))
         if nm:
             return eng.run_body(eng.body(nm), [v])
+    if isinstance(v, Opaque) and v.ty == tb:
+        return v
     if tb in STRLIKE and isinstance(v, (Bytes, Vec)):
         owned = tb in ('String', 'OsString', 'PathBuf', 'Vec', 'CString') and not tgt.strip().startswith('&')
         if owned:
@@ -661,11 +663,12 @@ def minmax(eng, ci, a, want_max):
     m = re.search(r'(?:max|min)::<(\w+)>', ci.raw)
     ty = m.group(1) if m else (type_base(ci.selfty) if ci.selfty else None)
     if isinstance(x, Struct) and x.name in ('Duration', 'Instant'):
-        lt = eng.world_time_lt(x, y) if hasattr(eng, 'world_time_lt') else None
-        if lt is None:
-            raise Unsupported('min/max of %r' % (x,))
-        x_lt_y = eng.branch(lt)
-        return (y if x_lt_y else x) if want_max else (x if x_lt_y else y)
+        from .sysenv import tval
+        X, Y = tval(x.f[0]), tval(y.f[0])
+        if isinstance(X, int) and isinstance(Y, int):
+            return Struct(x.name, [max(X, Y) if want_max else min(X, Y)])
+        lt = X < Y
+        return Struct(x.name, [z3.If(lt, Y, X) if want_max else z3.If(lt, X, Y)])
     if isinstance(x, int) and isinstance(y, int):
         return max(x, y) if want_max else min(x, y)
     if ty not in INTW:
@@ -681,7 +684,8 @@ def minmax(eng, ci, a, want_max):
 def _(eng, ci, a, sp):
     x, y = deref_all(a[0]), deref_all(a[1])
     if isinstance(x, Struct) and x.name in ('Instant', 'Duration'):
-        return eng.world.time_cmp(eng, ci.method, x, y)
+        from .sysenv import time_cmp
+        return time_cmp(eng, ci.method, x, y)
     if isinstance(x, int) and isinstance(y, int):
         return {'lt': x < y, 'le': x <= y, 'gt': x > y, 'ge': x >= y}[ci.method]
     ty = type_base(ci.selfty)
